@@ -770,3 +770,37 @@ benign('C12', 'restore_state checks the layout of the saved state first',
                          "            if gauss_next is not None and not isinstance(gauss_next, float):\n                raise TypeError('bad gauss_next')\n" + _RS)])
 benign('C12', 'restore_state checks the words in a loop',
        [('streams', _RS, "        for w in state[1][:624]:\n            if not 0 <= w < 2 ** 32:\n                raise ValueError('word out of range')\n" + _RS)])
+_WT_END = "        self._weighted_sum += weight * value;\n"
+_MERGE_HEAD = ("\n    def merge(self, other):\n        if not isinstance(other, WeightedTally):\n            raise TypeError('other should be a WeightedTally')\n"
+               "        if other._n == 0:\n            return\n"
+               "        self._min = other._min if self._n == 0 else min(self._min, other._min)\n"
+               "        self._max = other._max if self._n == 0 else max(self._max, other._max)\n"
+               "        self._n += other._n\n        if other._sum_of_weights == 0.0:\n            return\n"
+               "        self._n_nonzero += other._n_nonzero\n        self._sum_of_weights += other._sum_of_weights\n"
+               "        prev = self._weighted_mean\n"
+               "        self._weighted_mean += other._sum_of_weights / self._sum_of_weights * (other._weighted_mean - prev)\n")
+benign('C10', 'merge of another weighted tally (pooled moments)',
+       [('statistics', _WT_END, _WT_END + _MERGE_HEAD +
+         "        self._weight_times_variance += (other._weight_times_variance + other._sum_of_weights * (other._weighted_mean - prev)\n"
+         "                * (other._weighted_mean - self._weighted_mean))\n        self._weighted_sum += other._weighted_sum\n")])
+seeded('C10', 'merge adds the second moments without the between-groups term', 'R10.6',
+       [('statistics', _WT_END, _WT_END + _MERGE_HEAD +
+         "        self._weight_times_variance += other._weight_times_variance\n        self._weighted_sum += other._weighted_sum\n")], key='not-convex')
+seeded('C10', 'merge divides by the weight of the other tally only', 'R10.6',
+       [('statistics', _WT_END, _WT_END + _MERGE_HEAD.replace("other._sum_of_weights / self._sum_of_weights", "self._sum_of_weights / other._sum_of_weights") +
+         "        self._weight_times_variance += (other._weight_times_variance + other._sum_of_weights * (other._weighted_mean - prev)\n"
+         "                * (other._weighted_mean - self._weighted_mean))\n        self._weighted_sum += other._weighted_sum\n")], key='not-convex')
+_CN = "        if not isinstance(event.content, int):\n            raise TypeError(f\"notification {event.content} for counter \" + \\\n                            \"is not an int\")\n        self.register(event.content)\n"
+benign('C09', 'counter accepts a batch that is checked as a whole first',
+       [('statistics', _CN, "        values = event.content if isinstance(event.content, (list, tuple)) else (event.content,)\n"
+                            "        if not all(isinstance(v, int) for v in values):\n            raise TypeError('notification for counter is not an int')\n"
+                            "        for v in values:\n            self.register(v)\n")])
+seeded('C09', 'counter accepts a batch and checks each value just before registering it', 'R9.2',
+       [('statistics', _CN, "        values = event.content if isinstance(event.content, (list, tuple)) else (event.content,)\n"
+                            "        for v in values:\n            if not isinstance(v, int):\n                raise TypeError('notification for counter is not an int')\n"
+                            "            self.register(v)\n")], key='')
+seeded('C09', 'counter batch: the checked list is extended before it is registered', 'R9.2',
+       [('statistics', _CN, "        values = list(event.content) if isinstance(event.content, (list, tuple)) else [event.content]\n"
+                            "        if not all(isinstance(v, int) for v in values):\n            raise TypeError('notification for counter is not an int')\n"
+                            "        values.append(event.source)\n"
+                            "        for v in values:\n            self.register(v)\n")], key='')
